@@ -303,12 +303,26 @@ def run(ctx):
         # restricted container with an open shell (the down determinant is the leading columns of the same matrix)
         for g in ([(1, 2, 1), (2, 2, 2)] if name == "propagate_phaseless" else [(1, 2, 1)]):
             cfgs.append((name, "restricted", "uhf", (2, 1), dict(n_prop_steps=g[0], n_ene_blocks=g[1], n_sr_blocks=g[2])))
+    # orbital energies with a large common offset (h1 + mu): the un-normalised walkers, hence their overlaps, shrink by orders of
+    # magnitude between two re-orthonormalisations - the algorithm is scale-invariant, the cache must stay exact at any magnitude
+    for wt, tk, nelec in (("unrestricted", "uhf", (2, 1)), ("restricted", "rhf", (2, 2))):
+        cfgs.append(("propagate_phaseless", wt, tk, nelec, dict(n_prop_steps=4, n_ene_blocks=1, n_sr_blocks=1, mu=40.0)))
     lines, dyn = [], []
     spec_fail = []
     worst = 0.0
     nprop = 0
     for name, wt, tk, nelec, params in cfgs:
         S = systems.make_system(rng, tk, wt, norb=3, nelec=nelec, nchol=2, n_walkers=3, dt=0.05, seed=rng.randrange(1 << 30))
+        if params.get("mu"):
+            import jax.numpy as jnp
+            hd = {k: v for k, v in S["ham_data"].items() if k in ("h0", "h1", "chol", "ene0")}
+            hd["h1"] = jnp.array(np.array(hd["h1"]) + params["mu"] * np.eye(3))
+            hd = S["ham"].build_measurement_intermediates(hd, S["trial"], S["wave_data"])
+            hd = S["ham"].build_propagation_intermediates(hd, S["prop"], S["trial"], S["wave_data"])
+            key = S["prop_data"]["key"]
+            S["ham_data"] = hd
+            S["prop_data"] = S["prop"].init_prop_data(S["trial"], S["wave_data"], hd)
+            S["prop_data"]["key"] = key
         params = dict(params, stale=rng.randrange(1 << 20))
         try:
             tr = dynamic_trace(name, S, params)
@@ -316,7 +330,7 @@ def run(ctx):
             spec_fail.append((name, "entry point runs", {"walker_type": wt, "params": params, "error": repr(ex)[:300]}))
             continue
         dyn.append(tr)
-        lines.append(f"flatten {name} - " + " ".join(f"{k}={v}" for k, v in params.items() if k != "stale"))
+        lines.append(f"flatten {name} - " + " ".join(f"{k}={v}" for k, v in params.items() if k not in ("stale", "mu")))
         nprop += len(tr.resid)
         if tr.resid:
             worst = max(worst, max(tr.resid))
